@@ -247,9 +247,12 @@ func (r *SFRecord) encode(w *W) {
 		body.Bytes(hb)
 		pad4(body, len(hb))
 	case "rt":
-		if len(r.NextHop) == 4 {
+		switch len(r.NextHop) { // address type: 0 unknown (no address octets), 1 IPv4, 2 IPv6
+		case 0:
+			body.U32(0)
+		case 4:
 			body.U32(1)
-		} else {
+		default:
 			body.U32(2)
 		}
 		body.Bytes(r.NextHop)
@@ -279,7 +282,11 @@ func (r *SFRecord) expected() (string, interface{}) {
 		n := r.HeaderLen
 		return "RawHeader", r.Frame.Expected(n)
 	case "rt":
-		return "ExtRouter", J{"NextHop": net.IP(r.NextHop).String(), "SrcMask": num(r.Vals[0]), "DstMask": num(r.Vals[1])}
+		nh := ""
+		if len(r.NextHop) > 0 {
+			nh = net.IP(r.NextHop).String()
+		}
+		return "ExtRouter", J{"NextHop": nh, "SrcMask": num(r.Vals[0]), "DstMask": num(r.Vals[1])}
 	case "unknown":
 		return "", nil
 	}
